@@ -163,12 +163,11 @@ static bool anchor_cas(struct deque *d, struct pair *expected, struct pair desir
     g_step_old = o; g_step_new = desired;
     g_obs = desired;
     g_validated = false; g_bl_idx = -1; g_inward_seen = NULL;
-    if (o.ltag != stable)
+    if (T_STAB(o, desired))
     {
 #if defined(U_STABILIZE) || defined(U_STABILIZE_LEFT) || defined(U_STABILIZE_RIGHT)
       VX_REACH("helping_step");
 #endif
-      VX_ASSERT(T_STAB(o, desired), "an anchor in lpush/rpush state is only ever stabilized, (l,r,xpush,t) -> (l,r,stable,t+1): a pop or push step is taken only from a stable anchor");
       VX_ASSERT(BACKLINK_OK(o), "the anchor is stabilized only after the missing back link (l->right->left == l resp. r->left->right == r) is in place");
       VX_ASSERT(S_OK(g_q.anchor_), "a stabilizing step keeps the representation invariant at both ends");
     }
@@ -186,14 +185,14 @@ static bool anchor_cas(struct deque *d, struct pair *expected, struct pair desir
       g_lin_owndata = g_own != NULL ? DATA_OF(g_own) : 0;
       g_lin_ldata = DATA_OF(o.left);
       g_lin_rdata = DATA_OF(o.right);
+      VX_ASSERT(o.ltag == stable, "a pop or push step is taken only from a STABLE anchor: an anchor in lpush/rpush state is only ever stabilized, (l,r,xpush,t) -> (l,r,stable,t+1)");
       VX_ASSERT(OWN_OK(o, desired), OWN_TEXT);
       VX_ASSERT(A_OK(g_q.anchor_), "the step keeps the invariant of the anchor word (both ends NULL or both non-NULL; one element => stable)");
 #if defined(U_PUSH_LEFT) || defined(U_PUSH_RIGHT)
       VX_ASSERT(S_OK(g_q.anchor_), "a push step keeps the representation invariant at both ends (only the one back link is missing)");
-      g_own = NULL;   /* published */
 #endif
-#if defined(U_SEQ)
-      g_own = NULL;
+#if defined(U_PUSH_LEFT) || defined(U_PUSH_RIGHT) || defined(U_SEQ)
+      g_own = NULL;   /* published */
 #endif
     }
     return true;
